@@ -6,6 +6,7 @@
    All statements hold for EVERY statistics interval s, EVERY (possibly step-dependent)
    preconditioner interval, EVERY start step and EVERY horizon (induction over the step list). *)
 From Precond Require Import Base.PyLib C04.Model C04.Proofs.
+From Precond Require C04.Ref C04.RefLink.
 From Coq Require Import QArith.
 Open Scope Z_scope.
 
@@ -157,3 +158,13 @@ Theorem c04_update_depends_on_stored_precond : forall sharded start p x,
   start <= count x /\ (sharded = true \/ count x mod p <> 0).
 Proof. exact depends_on_stored_spec. Qed.
 Print Assumptions c04_update_depends_on_stored_precond.
+
+(* the translated source of preconditioning_compute_steps_schedule (C04.Ref, regenerated from /repo on
+   every run and re-proved equal: GenEq obligation) computes the model's integer interval formula
+   whenever the learning-rate ratio lr(t)/lr(0) is the rational num/den *)
+Theorem c04_schedule_source_is_model : forall (base lr : Q) (start end_ num : Z) (den : positive),
+  (lr / base == num # den)%Q ->
+  (C04.Ref.compute_steps_schedule base lr start end_
+   == inject_Z (sched_interval start end_ num (Z.pos den)))%Q.
+Proof. exact C04.RefLink.schedule_is_model. Qed.
+Print Assumptions c04_schedule_source_is_model.
